@@ -14,6 +14,7 @@ import (
 	"verif/mc/props/c05"
 	"verif/mc/props/c06"
 	"verif/mc/props/c07"
+	"verif/mc/props/c10"
 	"verif/mc/props/c11"
 	"verif/mc/props/c12"
 	"verif/mc/props/c14"
@@ -29,6 +30,7 @@ type prop struct {
 }
 
 var props = map[string]prop{
+	"C10": {"model_checking", c10.Main, func(r *core.Run, mode string, raw []byte) { c10.Replay(r, mode, raw) }},
 	"C19": {"model_checking", c19.Main, func(r *core.Run, mode string, raw []byte) { c19.Replay(r, mode, raw) }},
 	"C11": {"model_checking", c11.Main, func(r *core.Run, mode string, raw []byte) { c11.Replay(r, raw) }},
 	"C12": {"model_checking", c12.Main, func(r *core.Run, mode string, raw []byte) { c12.Replay(r, raw) }},
@@ -45,6 +47,10 @@ var props = map[string]prop{
 }
 
 func main() {
+	if len(os.Args) >= 2 && os.Args[1] == "C10-alloc-worker" {
+		c10.AllocWorker()
+		return
+	}
 	if len(os.Args) < 3 {
 		fmt.Fprintln(os.Stderr, "usage: mc <ID> <quick|thorough> | mc <ID> --replay <file>")
 		os.Exit(2)
